@@ -79,7 +79,8 @@ Definition mg_init (inputs : list (list row)) : list mg_live :=
 
 (* ---------- (1) utils.get_next_row / merge_sort ---------- *)
 (* fuel = number of rows still to deliver; running out of it would truncate the output —
-   Proofs/MergeP.v shows that this does not happen from the initial fuel (mg_merge_fuel) *)
+   Proofs/MergeP.v shows that this does not happen from the initial fuel (mg_merge_fuel_irrel,
+   mg_merge_all_fuel_spec) *)
 Fixpoint mg_merge (fuel : nat) (st : list mg_live) : list row :=
   match fuel with
   | O => []
